@@ -1,11 +1,18 @@
 """C06 A failing branch fails its Parallel/Map once; siblings cannot disturb the result."""
+from contracts import handlers as H
 
 
 def build(P):
     P.category = "other"
+    H.setup(P)
+    H.add_handlers(P, ("C06",))
     P.native("failing-branches", "natives.c06:failures", kind="bounded", clause="C06:", timeout=900,
-             bound="6 scenario machines (uncaught failure with a task sibling; Catch with ResultPath on the Parallel; Fail state "
-                   "ending a branch; error caught inside a branch with a fallback task; Map with Retry then Catch; Wait sibling) x "
-                   "every schedule up to 4 choice points (6 at thorough) in three exploration modes + seeded random schedules; real "
-                   "StateEngine + real TaskDispatcher (execute_task, reply path, cancel_task), fake broker")
-    P.explanation = "failing branches"
+             bound="8 scenario machines (uncaught failure with a task sibling; Catch with ResultPath on the Parallel; Fail state "
+                   "ending a branch; error caught inside a branch with a fallback task, alone and with a failing sibling; Map with "
+                   "Retry then Catch; Wait sibling; sibling in Retry back-off) x every schedule up to 4 choice points (6 at thorough) "
+                   "in three exploration modes + seeded random schedules; real StateEngine + real TaskDispatcher, fake broker")
+    P.explanation = ("Deductive (handler level): a Task whose branch was terminated while it waited for its start / retry delay is "
+                     "not started (termination re-checked in asl_state_Task_delegate), a terminated task's reply reaches handle_error as "
+                     "Task.Terminated, a cancelled Wait passes the cancellation error on. Everything quantified over interleavings of "
+                     "sibling events is checked only by the bounded stand-in.")
+    P.not_decided = ["collect_results error path, check_pending_results, branch_has_terminated (real bodies) are not under discharged contracts"]
